@@ -1,21 +1,139 @@
+import itertools
 from vlib.spec import chx, pyob
 
-ASSUMPTIONS = []
-T = {"quick": 120, "thorough": 900}
+EXPLANATION = ("CrossHair symbolic execution (z3) of the real OverwriteableFileConsumer methods (frontends/sftpd.py): ONE operation "
+               "(download chunk / client write / size change / read) from an arbitrary consistent consumer state with a universally "
+               "quantified probe position; integers unbounded in the one-step obligations; temp file replaced by a recording fake "
+               "holding provenance buffers; plus bounded 4-operation histories against a reference byte-array model.")
+ASSUMPTIONS = [
+    "abstraction relation (the inductive claim): position p of the temporary file is 'settled' (holds the byte the client must see) iff "
+    "p < downloaded or p >= download_size or p lies in a pending-overwrite span; every step is shown to keep exactly this relation, "
+    "so histories of any length are covered by induction on steps, not by enumeration",
+    "pre-state invariant of the pending-overwrite heap: every span (s, e) has 0 <= s <= e and e >= downloaded (overwrite() queues only "
+    "spans with e > downloaded; write() re-queues (next_downloaded, end) with end >= next_downloaded and leaves only spans starting at "
+    "or after the new position); spans may overlap, nest and be empty; heap order holds; at most 2 spans (3 in the thorough tier)",
+    "download_size <= current_size; downloaded may exceed download_size (last chunk overshoot / truncation)",
+    "the download stream is sequential: the chunk delivered when downloaded == d carries download bytes [d, d+n)",
+    "waiting readers: heap entries (index, sequence number, reader) with index > downloaded, index <= download_size and pairwise different sequence numbers "
+    "(equal indices allowed); index <= download_size because read() queues min(offset+length, download_size) and the consumer's docstring forbids size "
+    "changes while a read is waiting (observed, not claimed: with a waiting index > download_size _update_downloaded returns before its download_done check, "
+    "so that reader is released only when the whole original download ends)",
+    "byte contents abstracted to provenance (ProvBuf); the temporary file is a recording fake (EncryptedTemporaryFile not executed)",
+    "foolscap eventual-send replaced by a recorder: a released reader is recorded with the file state at that moment (later file states only add settled bytes)",
+    "logging removed (sftpd.noisy False, log statements stripped); consumer built with __new__",
+]
+
+# ---- case splits: relations over named integer terms; proved exhaustive by a z3 query (cases_exhaustive) ----
+LT, EQ, GT, LE, GE = 0, 1, 2, 3, 4
+W2_VARS = ["d", "d+n", "D", "s0", "e0", "s1", "e1"]
+W3_VARS = W2_VARS + ["s2", "e2"]
+
+
+def _prod(*alts):
+    out = []
+    for combo in itertools.product(*alts):
+        rel = [list(r) for (r, _l) in combo]
+        out.append({"rel": rel, "_label": ",".join(l for (_r, l) in combo)})
+    return out
+
+
+_s0_d = [((3, 0, LE), "s0<=d"), ((3, 0, GT), "s0>d")]
+_e0_dn = [((4, 1, LT), "e0<d+n"), ((4, 1, GE), "e0>=d+n")]
+_s1_e0 = [((5, 4, LE), "s1<=e0"), ((5, 4, GT), "s1>e0")]
+_s1_dn = [((5, 1, LT), "s1<d+n"), ((5, 1, GE), "s1>=d+n")]
+_s2_e0 = [((7, 4, LE), "s2<=e0"), ((7, 4, GT), "s2>e0")]
+W2_CASES = _prod(_s0_d, _e0_dn)
+W3_CASES = _prod(_s0_d, _e0_dn, _s1_e0, _s2_e0)
+SPLITS = {"write_2span": (W2_VARS, W2_CASES), "write_3span": (W3_VARS, W3_CASES)}
+
+H_SCHED = ["WWKK", "WKWK", "WKKW", "KWWK", "KWKW", "KKWW"]
+
+
+def cases_exhaustive(ctx):
+    """z3: for every case-split obligation the disjunction of its case predicates is valid (no state is left out),
+    and every case is satisfiable together with the obligation's precondition."""
+    import time
+    import z3
+    t0 = time.time()
+    q = 0
+    ops = {LT: lambda a, b: a < b, EQ: lambda a, b: a == b, GT: lambda a, b: a > b, LE: lambda a, b: a <= b, GE: lambda a, b: a >= b}
+    for name, (vars_, cases) in SPLITS.items():
+        d, n, D = z3.Ints("d n D")
+        sp = z3.Ints("s0 e0 s1 e1 s2 e2")
+        terms = [d, d + n, D] + sp[:len(vars_) - 3]
+        pre = [0 <= d, d < D, n >= 0]
+        for i in range(0, len(vars_) - 3, 2):
+            pre += [0 <= sp[i], sp[i] <= sp[i + 1], sp[i + 1] >= d]
+        disj = []
+        for c in cases:
+            conj = z3.And([ops[code](terms[i], terms[j]) for (i, j, code) in c["rel"]])
+            disj.append(conj)
+            s = z3.Solver()
+            s.add(pre + [conj])
+            q += 1
+            if s.check() != z3.sat:
+                return {"status": "inconclusive", "queries": q, "solver_s": time.time() - t0, "nonvacuous": False,
+                        "info": "case %s of %s is empty" % (c["_label"], name)}
+        s = z3.Solver()
+        s.add(z3.Not(z3.Or(disj)))
+        q += 1
+        r = s.check()
+        if r == z3.sat:
+            m = s.model()
+            return {"status": "violated", "queries": q, "solver_s": time.time() - t0, "nonvacuous": True, "model": str(m),
+                    "replay_src": "import sys\nprint('case split of %s misses: %s')\nsys.exit(1)\n" % (name, str(m).replace("'", ""))}
+        if r != z3.unsat:
+            return {"status": "inconclusive", "queries": q, "solver_s": time.time() - t0, "nonvacuous": True, "info": "unknown"}
+    return {"status": "discharged", "queries": q, "solver_s": round(time.time() - t0, 3), "nonvacuous": True,
+            "info": "splits proved exhaustive: %s" % ", ".join("%s (%d cases)" % (k, len(v[1])) for k, v in SPLITS.items())}
+
+
+T = {"quick": 150, "thorough": 900}
 OBLIGATIONS = [
-    chx("write_nospan", "C39_h", "h_write0", timeout=T, desc="write with empty heap"),
-    chx("write_1span", "C39_h", "h_write1", timeout=T, desc="write with one span"),
-    chx("write_2span", "C39_h", "h_write2", timeout=T, desc="write with two spans"),
-    chx("write_3span", "C39_h", "h_write3", timeout=T, desc="write with 3 spans"),
-    chx("write_milestones", "C39_h", "h_write_milestones", timeout=T, desc=""),
-    chx("write_inactive", "C39_h", "h_write_inactive", timeout=T, desc=""),
-    chx("overwrite", "C39_h", "h_overwrite", timeout=T, desc=""),
-    chx("overwrite_closed", "C39_h", "h_overwrite_closed", timeout=T, desc=""),
-    chx("set_size", "C39_h", "h_set_size", timeout=T, desc=""),
-    chx("read", "C39_h", "h_read", timeout=T, desc=""),
-    chx("read_two_waiting", "C39_h", "h_read_two_waiting", timeout=T, desc=""),
-    chx("read_closed", "C39_h", "h_read_closed", timeout=T, desc=""),
-    chx("done_releases", "C39_h", "h_done_releases", timeout=T, desc=""),
-    chx("history", "C39_h", "h_history", timeout=T, desc="",
-        cases=[{"sched": i, "_label": s} for i, s in enumerate(["WWKK", "WKWK", "WKKW", "KWWK", "KWKW", "KKWW"])]),
+    chx("history", "C39_h", "h_history", timeout={"quick": 200, "thorough": 1200},
+        bounds={"quick": {"int_max": 2, "exact_tail": True}, "thorough": {"int_max": 3}},
+        cases={"quick": [{"sched": 0, "_label": "WWKK"}, {"sched": 4, "_label": "KWKW"}],
+               "thorough": [{"sched": i, "_label": s} for i, s in enumerate(H_SCHED)]},
+        desc="bounded histories: two client writes and the download in two chunks in each of the 6 interleavings, final temp file compared with the "
+             "reference (original contents with the writes applied in order) at probe p; bug-finding complement of the one-step claim",
+        outside="integers above the bound (quick: all sizes/offsets/lengths <= 2, second chunk ends exactly at the download size, 2 of the 6 "
+                "interleavings; thorough: <= 3, overshooting last chunk, all 6); more than 2 writes / 2 chunks (covered inductively by the one-step obligations)"),
+    chx("write_nospan", "C39_h", "h_write0", timeout=T,
+        desc="OverwriteableFileConsumer.write/_update_downloaded, empty heap: bytes [d, min(d+n, download_size)) land at their own positions, "
+             "nothing else written, downloaded == d+n, done iff complete"),
+    chx("write_1span", "C39_h", "h_write1", timeout=T,
+        desc="write with one arbitrary pending overwrite span: p receives download byte p iff d <= p < min(d+n, D) and p outside the span; "
+             "everything else untouched; settled set afterwards == settled before + bytes written; heap invariant kept"),
+    chx("write_2span", "C39_h", "h_write2", timeout=T, cases=W2_CASES,
+        desc="same with two arbitrary pending spans (overlapping, nested, empty, adjacent): exercises the merge loop; unbounded integers; "
+             "case split on s0<=d / e0<d+n (proved exhaustive by cases_exhaustive)"),
+    chx("write_3span", "C39_h", "h_write3", timeout=T, cases=W3_CASES, tiers=("thorough",),
+        desc="same with three pending spans (heap of 3)"),
+    pyob("cases_exhaustive", "cases_exhaustive", timeout=60,
+         desc="z3: the case predicates of every split obligation cover all states (disjunction valid) and none is empty"),
+    chx("write_milestones", "C39_h", "h_write_milestones", timeout=T,
+        cases=[{"nsp": 0, "nms": 1, "_label": "0span,1waiting"}, {"nsp": 0, "nms": 2, "_label": "0span,2waiting"},
+               {"nsp": 1, "nms": 1, "_label": "1span,1waiting"},
+               {"nsp": 1, "nms": 2, "swap": 0, "_label": "1span,2waiting,seq-in-order"},
+               {"nsp": 1, "nms": 2, "swap": 1, "_label": "1span,2waiting,seq-swapped"}],
+        desc="write/_update_downloaded with 0-1 span and 1-2 waiting readers: a reader waiting for m is released only when every position below "
+             "min(m, D) is settled at that moment; no reader with m <= downloaded is left waiting; released exactly once; done exactly when complete"),
+    chx("write_inactive", "C39_h", "h_write_inactive", timeout=T,
+        desc="write after close or after the (possibly truncated) download size was reached: no file access, no state change"),
+    chx("overwrite", "C39_h", "h_overwrite", timeout=T,
+        cases=[{"nsp": 0, "_label": "0span"}, {"nsp": 1, "_label": "1span"}, {"nsp": 2, "_label": "2span"}],
+        desc="overwrite (client write) from a state with 0-2 spans: data at [offset, offset+n), zero fill of [current_size, offset), nothing else; "
+             "current_size = max; every written position the download has yet to pass is in a pending span afterwards; no span lost/invented; heap invariant kept"),
+    chx("overwrite_closed", "C39_h", "h_overwrite_closed", timeout=T, desc="overwrite on a closed consumer raises SFTPError without effect"),
+    chx("set_size", "C39_h", "h_set_size", timeout=T,
+        desc="set_current_size with 0-1 span, 0-1 waiting reader: truncation removes exactly the bytes >= size, extension is zero-filled and protected, "
+             "download_size = min(old, size), download marked done (readers released) iff downloaded >= new download_size"),
+    chx("read", "C39_h", "h_read", timeout=T,
+        desc="read/when_reached_or_failed: EOFError iff offset >= current_size; length clipped to current_size; returns immediately iff done or "
+             "min(offset+length, D) <= downloaded, else waits on exactly that milestone; result is the file slice [offset, offset+length'); failed download => read fails"),
+    chx("read_two_waiting", "C39_h", "h_read_two_waiting", timeout=T,
+        desc="two reads outstanding at once, both waiting for the download: both are queued and each gets its own slice"),
+    chx("read_closed", "C39_h", "h_read_closed", timeout=T, desc="close marks done with b'closed', closes the file; read afterwards raises SFTPError"),
+    chx("done_releases", "C39_h", "h_done_releases", timeout=T,
+        desc="download_done: first call wins, releases every waiting reader exactly once; later waiters are answered at once"),
 ]
